@@ -170,6 +170,14 @@ Definition reinit_from_mutated (self fresh : named) : option named :=
    configuration — its parameters [fresh] — then preserve. *)
 Definition recreate (shrink : bool) (old fresh : named) : option named :=
   if shrink then shrink_preserve old fresh else Some (preserve old fresh).
+(* EvolvableBERT.recreate_network as it is on the tree (before fixes/C04-bert-reset-parameters.patch):
+   build_networks() first runs _reset_parameters() over the parameters that are attached at that moment
+   — the OLD ones: every parameter of rank >= 2 is overwritten by its initialiser — and only then are
+   the (wiped) old parameters carried over into the new layers. *)
+Definition reset_params (init : param -> param) (l : named) : named :=
+  map (fun kp => (fst kp, if Nat.leb 2 (length (p_size (snd kp))) then init (snd kp) else snd kp)) l.
+Definition recreate_bert_pinned (init : param -> param) (old fresh : named) : named :=
+  preserve (reset_params init old) fresh.
 End Tensors.
 
 Arguments tensor : clear implicits.
